@@ -303,14 +303,34 @@ func (d *cnDriver) step() error {
 				continue // let this node lapse for an epoch
 			}
 			nonce := uint64(d.acctField(v.name, "n")) + nonceBump[v.name]
-			sp := cnTxSpec{Kind: "regnode", Signer: v.name, Amount: epochNow + 2 + int64(d.rng.Intn(2)), Nonce: nonce, Gas: 5000, Validity: "ok"}
-			raw, err := n.buildTx(&sp, d.rng)
+			rot := []string{"", "", "fresh:p2p", "fresh:tls", "fresh:vrf", "move:tls>p2p", "move:vrf>p2p", "move:tls>vrf", "move:p2p>tls", "swap:p2p:tls", "swap:vrf:tls"}[d.rng.Intn(11)]
+			sp := &cnTxSpec{Kind: "regnode", Signer: v.name, Node: v.name, Amount: epochNow + 2 + int64(d.rng.Intn(2)), Nonce: nonce, Gas: 5000, Validity: "ok", Rotate: rot}
+			raw, err := n.buildTx(sp, d.rng)
 			if err != nil {
 				return err
 			}
 			nonceBump[v.name]++
-			spc := sp
-			metas = append(metas, cnTxMeta{&spc, raw})
+			metas = append(metas, cnTxMeta{sp, raw})
+		}
+	}
+	if d.rng.Intn(6) == 0 {
+		// registry transactions without the required authority
+		i := d.rng.Intn(len(n.vals))
+		var sp *cnTxSpec
+		switch d.rng.Intn(3) {
+		case 0: // somebody else signs the transaction carrying a correctly signed descriptor
+			u := n.users[d.rng.Intn(len(n.users))]
+			sp = &cnTxSpec{Kind: "regnode", Signer: u.name, Node: n.vals[i].name, Amount: epochNow + 2, Nonce: uint64(d.acctField(u.name, "n")) + nonceBump[u.name], Gas: 5000, Validity: "wrongsigner"}
+		case 1: // descriptor lacks the signature of one of the node's keys
+			v := n.vals[i]
+			sp = &cnTxSpec{Kind: "regnode", Signer: v.name, Node: v.name, Amount: epochNow + 2, Nonce: uint64(d.acctField(v.name, "n")) + nonceBump[v.name], Gas: 5000, Validity: "missingsig"}
+		default: // an entity that still owns nodes tries to deregister
+			e := fmt.Sprintf("E%d", d.rng.Intn(n.cfg.Validators))
+			sp = &cnTxSpec{Kind: "deregentity", Signer: e, Nonce: uint64(d.acctField(e, "n")) + nonceBump[e], Gas: 5000, Validity: "hasnodes"}
+		}
+		if raw, err := n.buildTx(sp, d.rng); err == nil {
+			nonceBump[sp.Signer]++
+			metas = append(metas, cnTxMeta{sp, raw})
 		}
 	}
 	if d.rng.Intn(5) == 0 {
@@ -502,6 +522,14 @@ func (d *cnDriver) observe(b *cnBlock, metas []cnTxMeta) cnBlockResult {
 			evn := map[string]any{"ev": "tx", "h": b.Height, "i": i, "id": th.String()[:16], "code": int64(resp.Code), "module": resp.Codespace,
 				"gas_used": resp.GasUsed, "nraw": len(changed), "state": proj, "env": env}
 			if sp := specOf[string(tx)]; sp != nil {
+				if cand, ok := n.pendingRot[sp]; ok {
+					if resp.Code == 0 {
+						var idx int
+						fmt.Sscanf(sp.Node, "N%d", &idx)
+						n.vals[idx].rot = cand
+					}
+					delete(n.pendingRot, sp)
+				}
 				evn["spec"] = sp
 				d.txKinds[sp.Kind+":"+sp.Validity]++
 			} else {
@@ -518,8 +546,13 @@ func (d *cnDriver) observe(b *cnBlock, metas []cnTxMeta) cnBlockResult {
 		if err != nil {
 			panic(err)
 		}
+		regp, rerr := n.registryProjection(st2(r))
+		if rerr != nil {
+			panic(rerr)
+		}
 		res.AppHash = r.commit()
 		d.lastProj = proj
+		d.emit(map[string]any{"ev": "reg", "h": b.Height, "reg": regp})
 		d.emit(map[string]any{"ev": "end", "h": b.Height, "state": proj, "valupd": res.ValUpd, "valupd2": valRecords(res.ValUpd), "apphash": res.AppHash[:16]})
 	})
 	if perr != nil {
